@@ -530,7 +530,13 @@ func run(tapeJSON json.RawMessage, res *core.Result) {
 				case strings.Contains(n, "authenticator does not decrypt"):
 					viol("tgsreq.authenticator-key-or-usage", d)
 				case strings.Contains(n, "authenticator client does not match"):
-					viol("tgsreq.authenticator-client", d)
+					if destroyedAt >= 0 && at(rq.At) >= destroyedAt {
+						// a request sent after Destroy under a session that a re-login in flight at the
+						// time of the Destroy installed afterwards: it names the blank credentials
+						viol("tgsreq.authenticator-client|after-destroy", d)
+					} else {
+						viol("tgsreq.authenticator-client", d)
+					}
 				case strings.Contains(n, "authenticator time off"):
 					viol("tgsreq.authenticator-time", d)
 				case strings.Contains(n, "undecodable"), strings.Contains(n, "without PA-TGS-REQ"), strings.Contains(n, "no checksum"):
